@@ -20,6 +20,18 @@ exception, which workers have exited, nobody blocked.
 Search: the property stated on the implementation alone: same bytes as the local read, a failure surfaces as the exception of a
 failed request, every thread started has finished (threading.enumerate()), no deadlock — over model-independent schedules
 (random priority policies and the adversarial ones).
+
+After the call: the controller notes the moment every observed call (a strategy call, a CopcReader.query) returns or raises -
+which of the threads it started are not finished and what each is about to do, how many requests the server has seen - and keeps
+driving those threads: any operation for a range (request, seek, result published, task_done, job begun) or any range request after
+that moment is a failing input ("worker thread still at work / range request issued after the call returned|raised"); model:
+C16_queue_steps_only_exits_after_done, C16_exec_nothing_after_done, compared per trace (quiet=).  A fail-fast schedule (a failed
+request answered before every other request in flight, main running whenever it can) is among the adversarial ones.
+
+Sessions: successive calls of a strategy on one source, and successive queries on ONE CopcReader over the fake http source
+(levels / boxes growing and shrinking, so that byte ranges start at the same offset with different lengths; repeats; unrelated
+ones), persistent and transient faults: each must equal the local answer for ITS ranges.  Model: reader_session gen_fetch_site
+(what the reader keeps between queries - nothing), compared on the compressed bytes each query hands to the LAZ backend.
 """
 import io
 import struct
@@ -44,6 +56,9 @@ ASSUMPTIONS = [
     "the OS scheduler is abstracted to: any interleaving of the threads at queue operations (main's puts included), thread "
     "starts (queue strategy), request completions, seeks, future.result() and pool shutdown; code between two such points of "
     "one thread is treated as atomic",
+    "http_queue_strategy does not join the threads it starts: a worker that has marked its last range done may still be on its way out "
+    "(one non-blocking take that finds the queue empty, closing its stream) when the call returns; that is not counted as work "
+    "(proved: it is the only step left, C16_queue_steps_only_exits_after_done), threading.enumerate() is checked once those steps ran",
     "end-to-end queries use harness/fake_lazrs as the LAZ backend; a chunk-table entry (0 points, 0 bytes) - an empty COPC "
     "node - is dropped before the stand-in sees it (it rejects a 0-byte chunk)",
 ]
@@ -129,6 +144,7 @@ class Controller:
         self.thread_errors = []
         self.problem = None                   # ('deadlock', [...]) | ('hang', [...])
         self.decisions = []                   # what was granted: tids
+        self.boundaries = []                  # one per observed call (strategy call / query): the moment it returned or raised
 
     # ---- called by controlled threads
     def ping(self):
@@ -186,6 +202,16 @@ class Controller:
             return
         with self.cv:
             self.trace.append((self.window, info.tid, label, extra))
+
+    def boundary(self, world, how):
+        """called by the main controlled thread at the moment an observed call returns or raises: what has been traced and
+        requested so far, which threads exist and what each unfinished one is about to do"""
+        with self.cv:
+            if self.aborting:
+                return
+            self.boundaries.append({"how": how, "trace": len(self.trace), "requests": len(world.requests),
+                                    "failed": len(world.failed), "tids": len(self.infos), "jobs": self.submitted,
+                                    "alive": [(i.tid, i.state, i.label) for i in self.infos[1:] if i.state != "finished"]})
 
     def job_begin(self, idx):
         info = self.me()
@@ -276,20 +302,28 @@ class Controller:
                 pass
 
     def events(self):
-        """trace in model order: `begin` events of one window sorted by job index (they are not ordered by any controlled op)"""
-        out = []
-        cur = []
-        for w, tid, label, extra in self.trace:
-            if label == "begin":
-                cur.append((extra, tid))
-                continue
-            if cur:
-                out += [f"{t}.begin.{j}" for j, t in sorted(cur)]
-                cur = []
-            out.append(f"{tid}.{label}")
+        return render(self.trace)
+
+
+def render(trace, tid0=0, job0=0):
+    """trace in model order: `begin` events of one window sorted by job index (they are not ordered by any controlled op);
+    tid0 / job0: worker ids and job indices are renumbered relative to these (one call of a session)"""
+    out = []
+    cur = []
+
+    def tn(t):
+        return t if t == 0 else t - tid0
+    for w, tid, label, extra in trace:
+        if label == "begin":
+            cur.append((extra - job0, tn(tid)))
+            continue
         if cur:
             out += [f"{t}.begin.{j}" for j, t in sorted(cur)]
-        return out
+            cur = []
+        out.append(f"{tn(tid)}.{label}")
+    if cur:
+        out += [f"{t}.begin.{j}" for j, t in sorted(cur)]
+    return out
 
 
 CURRENT = None      # the controller of the run in progress
@@ -421,7 +455,9 @@ class FakeSession:
         if ctl is not None and not ctl.seek_yields:
             ctl.point("fetch", extra=(start, n))       # queue strategy: the request completes when the controller says so
         w = self.world
+        me = ctl.me() if ctl is not None else None
         w.requests.append((start, n))
+        w.request_tids.append(None if me is None else me.tid)
         fault = w.fault_for(start, n)
         if fault is None and (start >= len(w.file) or n <= 0):
             fault = (416, "empty")                      # what a server answers for a range outside the resource
@@ -439,15 +475,20 @@ class FakeSession:
 class World:
     """the server: the file, and what it answers the requests of the failing ranges with"""
 
-    def __init__(self, file, faults=None, by_start=False):
+    def __init__(self, file, faults=None, by_start=False, once=False):
         self.file = bytes(file)
         self.faults = dict(faults or {})       # (start, n) -> (status, body kind)   [by_start: start -> ...]
         self.by_start = by_start
+        self.once = once                       # a fault hits the first request it applies to only (a transient error)
         self.requests = []
+        self.request_tids = []                 # which controlled thread made the request (None: not a controlled thread)
         self.failed = []                       # the requests that were answered with an error / not answered
 
     def fault_for(self, start, n):
-        return self.faults.get(start if self.by_start else (start, n))
+        key = start if self.by_start else (start, n)
+        if self.once:
+            return self.faults.pop(key, None)
+        return self.faults.get(key)
 
 
 _PATCH_LOCK = threading.Lock()
@@ -481,7 +522,7 @@ class Patched:
                 # jobs could be moved in between); the whole read = range computation + response + position update is one step
                 # (an empty range makes no request: the read itself is the step)
                 if ctl.seek_yields or n == 0:
-                    ctl.point("fetch")
+                    ctl.point("fetch", extra=(self.range_start, n))
                 return real_stream.read(self, n)
 
         class FutProxy:
@@ -499,6 +540,8 @@ class Patched:
             def __init__(self, *a, **k):
                 super().__init__(*a, **k)
                 ctl.executors.append(self)
+                with ctl.cv:
+                    ctl.shutdown_flag = False          # a new pool (a later call of a session): nobody has shut it down yet
 
             def _real_shutdown(self, wait=True):
                 real_tpe.shutdown(self, wait=wait)
@@ -545,6 +588,19 @@ class Patched:
         CURRENT = ctl
         return self
 
+    def observed(self, f):
+        """runs one call of the code under test in the main controlled thread and notes the moment it returns or raises"""
+        try:
+            out = ("returned", f())
+        except Abort:
+            raise
+        except FakeHTTPError as ex:
+            out = ("raised", ex.range)
+        except Exception as ex:  # noqa
+            out = ("error", common.exc_kind(ex) + ": " + str(ex)[:80])
+        self.ctl.boundary(self.world, out[0])
+        return out
+
     def __exit__(self, *exc):
         global CURRENT
         CURRENT = None
@@ -557,21 +613,48 @@ class Patched:
 
 
 # ------------------------------------------------------------------------------------------------ one controlled run
-def controlled_call(mode, world, fn, schedule=None, policy=None, seek_yields=False):
-    """runs fn(patched) in a controlled thread; returns dict(outcome, events, exited, problem, leaked, errors, decisions)"""
+WORK = ("fetch", "put", "done", "seek", "begin")     # what a thread does for a range it holds (everything but its exit path)
+
+
+def calls_of(ctl, world):
+    """per observed call: how it ended, the requests made / failed during it, and what the threads IT started still did for a
+    range after it had returned or raised (`late`); a thread that only leaves (a last non-blocking take that finds the queue
+    empty, closing its stream) is `winding_down`"""
+    out = []
+    prev = {"trace": 0, "requests": 0, "failed": 0, "tids": 1, "jobs": 0}
+    for b in ctl.boundaries:
+        mine = range(prev["tids"], b["tids"])
+        own = [e for k, e in enumerate(ctl.trace) if e[1] in mine or (e[1] == 0 and prev["trace"] <= k < b["trace"])]
+        late = [f"{tid}.{label}" for (_w, tid, label, _x) in ctl.trace[b["trace"]:] if tid in mine and label in WORK]
+        late_req = [list(r) for r, t in zip(world.requests[b["requests"]:], world.request_tids[b["requests"]:]) if t in mine]
+        alive = [a for a in b["alive"] if a[0] in mine]
+        out.append({"how": b["how"], "threads": len(mine), "requests": list(world.requests[prev["requests"]:b["requests"]]),
+                    "failed": list(world.failed[prev["failed"]:b["failed"]]),
+                    "alive_at_return": [[t, st, lb] for t, st, lb in alive], "late": late, "late_requests": late_req,
+                    "events": render(own, prev["tids"] - 1, prev["jobs"]),
+                    "exited": [i.state == "finished" for i in ctl.infos[prev["tids"]:b["tids"]]],
+                    "winding_down": len(alive) if not late and not late_req else 0})
+        prev = b
+    return out
+
+
+def controlled_call(mode, world, fn, schedule=None, policy=None, seek_yields=False, session=False):
+    """runs fn(patched) in a controlled thread; returns dict(outcome, events, exited, problem, leaked, errors, decisions, calls).
+    session: fn makes several observed calls itself (p.observed) and returns the list of their outcomes"""
     before = set(threading.enumerate())
     ctl = Controller(mode, schedule, policy, seek_yields)
     res = {}
     with Patched(ctl, world) as p:
         def target():
-            try:
-                res["outcome"] = ("returned", fn(p))
-            except Abort:
-                raise
-            except FakeHTTPError as ex:
-                res["outcome"] = ("raised", ex.range)
-            except Exception as ex:  # noqa
-                res["outcome"] = ("error", common.exc_kind(ex) + ": " + str(ex)[:80])
+            if session:
+                try:
+                    res["outcome"] = ("session", fn(p))
+                except Abort:
+                    raise
+                except Exception as ex:  # noqa   (outside the observed calls: building the reader ...)
+                    res["outcome"] = ("error", common.exc_kind(ex) + ": " + str(ex)[:80])
+            else:
+                res["outcome"] = p.observed(lambda: fn(p))
         t0 = threading.Thread(target=target, name="c16-main")
         info0 = ctl.register(t0)
         info0.state = "running"
@@ -597,6 +680,7 @@ def controlled_call(mode, world, fn, schedule=None, policy=None, seek_yields=Fal
         "requests": list(world.requests),
         "failed": list(world.failed),
         "threads": len(started) - 1,
+        "calls": calls_of(ctl, world),
     }
 
 
@@ -620,6 +704,27 @@ def run_exec(file, ranges, workers, faults, schedule=None, policy=None):
         p.copc.http_thread_executor_strategy(src, list(ranges), out, workers)
         return bytes(out)
     return controlled_call("exec", world, fn, schedule, policy, seek_yields=True)
+
+
+STRATEGY_FN = {"queue": "http_queue_strategy", "exec": "http_thread_executor_strategy"}
+
+
+def run_session(mode, file, calls, workers, faults, schedule=None, policy=None, once=False):
+    """several calls of one strategy, one after the other, on the same source object (what successive queries of one reader
+    are to the strategies); calls: list of range lists.  outcome = ('session', [outcome of each call])"""
+    world = World(file, faults, once=once)
+
+    def fn(p):
+        src = p.stream_cls("http://fake/file.copc.laz")
+        outs = []
+        for ranges in calls:
+            def one(ranges=ranges):
+                out = bytearray(sum(n for _, n in ranges))
+                getattr(p.copc, STRATEGY_FN[mode])(src, list(ranges), out, workers)
+                return bytes(out)
+            outs.append(p.observed(one))
+        return outs
+    return controlled_call(mode, world, fn, schedule, policy, seek_yields=(mode == "exec"), session=True)
 
 
 # ------------------------------------------------------------------------------------------------ schedules without the model
@@ -660,7 +765,7 @@ def last_item_race(ctl, enabled):
 
 ADVERSARIAL = {
     # name: (label priority, thread preference)
-    "main-first (a worker preempted between task_done and put)": (["qput", "start", "join", "drain", "collect", "shutdown", "joined", "take", "test", "fetch", "seek", "done", "put"], "low"),
+    "main-first (a worker preempted between task_done and put)": (["qput", "start", "join", "drain", "rget", "collect", "shutdown", "joined", "take", "test", "fetch", "seek", "done", "put"], "low"),
     "main preempted between its puts / thread starts until no worker can move": (["take", "test", "fetch", "seek", "put", "done", "collect", "join", "drain", "start", "qput"], "low"),
     "main starts every worker it can before putting the next range": (["start", "take", "test", "fetch", "seek", "put", "done", "qput", "join", "drain", "collect"], "high"),
     "highest worker first (a lower offset answered after a higher one)": (["take", "test", "seek", "fetch", "put", "done", "join", "drain", "collect"], "high"),
@@ -670,10 +775,40 @@ ADVERSARIAL = {
 }
 
 
-def free_schedules(rng, k_random):
-    """[(name, policy)]: the adversarial policies, the last-item race, and k random priority policies"""
+def make_fail_fast(faults, by_start=False):
+    """a failed request is answered before every other request in flight: the main thread runs whenever it can (so it sees each
+    result the moment it is published), every worker takes a range as soon as it can (the other requests are in flight), the
+    request of a failing range completes first and its worker publishes the error before anybody else moves"""
+    keys = set(faults)
+    hot = set()
+
+    def policy(ctl, enabled):
+        for i in enabled:
+            if i.tid == 0:
+                return i
+        for i in enabled:
+            if i.label in ("take", "test", "seek"):
+                return i
+        for i in enabled:
+            if i.label == "fetch" and i.extra is not None and (i.extra[0] if by_start else tuple(i.extra)) in keys:
+                hot.add(i.tid)
+                return i
+        for i in enabled:
+            if i.tid in hot and i.label in ("put", "begin"):
+                return i
+        return enabled[0]
+    return policy
+
+
+FAIL_FAST = "failed request answered first, main runs whenever it can"
+
+
+def free_schedules(rng, k_random, faults=None):
+    """[(name, policy)]: the adversarial policies, the last-item race, the fail-fast window, and k random priority policies"""
     out = [(name, make_policy(prio, pref, 0.0, rng)) for name, (prio, pref) in ADVERSARIAL.items()]
     out.append(("two workers past the emptiness test with one item left", last_item_race))
+    if faults:
+        out.append((FAIL_FAST, make_fail_fast(faults)))
     for k in range(k_random):
         prio = LABELS[:]
         rng.shuffle(prio)
@@ -735,9 +870,24 @@ def local_read(file, ranges):
 
 
 # ------------------------------------------------------------------------------------------------ the oracle (implementation only)
-def oracle(mode, file, ranges, failing, res):
-    """None when the property holds on this run, else (kind, observed)"""
-    kind0 = f"{mode}-strategy: "
+def late_work(res):
+    """the call has returned / raised and a thread it started still works for it: holds a range, makes a request, publishes a
+    result.  None, or (kind suffix, observed).  (A worker of the queue strategy that has marked its last range done may still be
+    on its way out when join() lets main go - one non-blocking take that finds the queue empty, then it closes its stream:
+    that is leaving, not work; the threads are not joined by the queue strategy, and no theorem says they are)"""
+    for k, c in enumerate(res.get("calls", [])):
+        if c["late"] or c["late_requests"]:
+            how = "raised" if c["how"] != "returned" else "returned"
+            nth = f"call #{k + 1} " if len(res["calls"]) > 1 else "the call "
+            what = "range request issued" if c["late_requests"] else "worker thread still at work"
+            return (f"{what} after the call {how}",
+                    f"{nth}{how} while the threads it started were (thread, state, next operation) {c['alive_at_return']}; afterwards they "
+                    f"still did {c['late'][:12]} and issued the range requests {c['late_requests'][:8]}")
+    return None
+
+
+def thread_problems(kind0, res):
+    """deadlock / hang / leaked or unfinished thread / work after the call: (kind, observed) or None"""
     if res["problem"] is not None:
         what, who = res["problem"]
         labels = sorted({str(b[-1]) for b in who})
@@ -749,6 +899,18 @@ def oracle(mode, file, ranges, failing, res):
         return kind0 + "thread still alive after the call", f"{res['leaked']}"
     if not all(res["exited"]):
         return kind0 + "worker thread not finished", f"exited={res['exited']}"
+    late = late_work(res)
+    if late is not None:
+        return kind0 + late[0], late[1]
+    return None
+
+
+def oracle(mode, file, ranges, failing, res):
+    """None when the property holds on this run, else (kind, observed)"""
+    kind0 = f"{mode}-strategy: "
+    bad = thread_problems(kind0, res)
+    if bad is not None:
+        return bad
     out = res["outcome"]
     fails_here = [r for r in ranges if r in set(failing) and r[1] > 0]      # an empty range makes no request: it cannot fail
     if not fails_here:
@@ -768,7 +930,40 @@ def oracle(mode, file, ranges, failing, res):
 def short(out):
     if out[0] == "returned":
         return ("returned", out[1].hex())
+    if out[0] == "session":
+        return ("session", [short(o) for o in out[1]])
     return out
+
+
+def session_oracle(mode, file, calls, faults, res, once=False):
+    """several calls on one source: EACH call returns what the local read of ITS ranges yields, or raises the error of a request
+    that failed during it; the thread conditions of `oracle` hold for each call"""
+    kind0 = f"{mode}-strategy, successive calls on one source: "
+    bad = thread_problems(kind0, res)
+    if bad is not None:
+        return bad
+    if res["outcome"][0] != "session" or len(res["outcome"][1]) != len(calls) or len(res["calls"]) != len(calls):
+        return kind0 + "the session did not run to its end", str(short(res["outcome"]))
+    for k, (ranges, out, c) in enumerate(zip(calls, res["outcome"][1], res["calls"])):
+        failed = [tuple(r) for r in c["failed"]]
+        nth = f"call #{k + 1} of {len(calls)} with ranges {[list(r) for r in ranges]} (earlier calls: {[[list(r) for r in rs] for rs in calls[:k]]})"
+        if not once:
+            # persistent faults: every non-empty failing range of this call is requested and fails
+            must = [r for r in ranges if tuple(r) in faults and r[1] > 0]
+            if must and out[0] == "returned":
+                return kind0 + "failed request swallowed, data returned", f"{nth}: failing {must} returned {out[1].hex()}"
+        if not failed:
+            want = local_read(file, ranges)
+            if out[0] != "returned":
+                return kind0 + "exception although no request failed", f"{nth}: {short(out)}"
+            if out[1] != want:
+                return kind0 + "bytes differ from the local read", f"{nth}: got {out[1].hex()} want {want.hex()}"
+        else:
+            if out[0] == "returned":
+                return kind0 + "failed request swallowed, data returned", f"{nth}: failed {failed} returned {out[1].hex()}"
+            if out[0] != "raised" or tuple(out[1]) not in failed:
+                return kind0 + "failed request surfaced as something else", f"{nth}: {short(out)}"
+    return None
 
 
 # ------------------------------------------------------------------------------------------------ model side
@@ -798,7 +993,18 @@ def canon_impl(mode, res):
     else:
         o = out[0]
     dead = res["problem"] is not None
-    return (o, "".join("1" if e else "0" for e in res["exited"]) or "-", "blocked" if dead else "finished")
+    base = (o, "".join("1" if e else "0" for e in res["exited"]) or "-", "blocked" if dead else "finished")
+    if mode == "queue":
+        # was nothing left to do for the call at the moment it returned / raised (model: C16_queue_steps_quiet_when_done)
+        calls = res.get("calls") or []
+        quiet = "-" if not calls else ("F" if (calls[0]["late"] or calls[0]["late_requests"]) else "T")
+        return base + ("quiet=" + quiet,)
+    return base
+
+
+def canon_impl_call(mode, out, call):
+    """one call of a session, seen like a run of its own"""
+    return canon_impl(mode, {"outcome": out, "exited": call["exited"], "problem": None, "calls": [call]})
 
 
 def pad(hexs, total):
@@ -829,6 +1035,8 @@ def canon_model(mode, line, total=0):
     ex = kv["exited"]
     allx = ex == "-" or set(ex) == {"1"}
     fin = "finished" if (done and allx and kv["stuck"] == "T") else ("blocked" if kv["stuck"] == "T" else "unfinished")
+    if mode == "queue":
+        return (o, ex, fin, "quiet=" + kv.get("quiet", "?"))
     return (o, ex, fin)
 
 
@@ -912,7 +1120,7 @@ def policy_cases(ctx, k_cfg, k_random, with_unsorted=True):
         for failing in fail_sets(rng, ranges, False)[: (5 if ctx.thorough() else 3)]:
             faults = CYCLE.assign(failing)
             for mode in ("queue", "exec"):
-                for name, pol in free_schedules(rng, k_random):
+                for name, pol in free_schedules(rng, k_random, faults):
                     cases.append({"mode": mode, "file": file, "ranges": ranges, "workers": w, "failing": failing, "faults": faults,
                                   "schedule": None, "policy": pol, "origin": name.split(" #")[0], "oracle": sorted_})
     return cases
@@ -921,6 +1129,156 @@ def policy_cases(ctx, k_cfg, k_random, with_unsorted=True):
 def run_case(c, schedule=None):
     return RUNNERS[c["mode"]](c["file"], c["ranges"], c["workers"], c["faults"],
                               schedule=schedule if schedule is not None else c["schedule"], policy=c["policy"])
+
+
+# ---- successive calls on one source
+def vary_ranges(rng, base, size):
+    """another call's ranges, related to `base`: (a) the same starts with other lengths, (b) neighbours merged into one range
+    (same start, longer), (c) a subset, (d) the same ranges again, (e) unrelated ranges; always strictly increasing offsets,
+    disjoint"""
+    kind = rng.choice(["other lengths", "other lengths", "merged", "merged", "subset", "same", "unrelated"])
+    if kind == "unrelated" or not base:
+        return kind, make_ranges(rng, rng.randrange(1, 5), size, True, "none")
+    if kind == "same":
+        return kind, list(base)
+    if kind == "subset":
+        keep = [r for r in base if rng.random() < 0.6] or [rng.choice(base)]
+        return kind, keep
+    if kind == "merged" and len(base) >= 2:
+        out, k = [], 0
+        while k < len(base):
+            if k + 1 < len(base) and rng.random() < 0.6:
+                out.append((base[k][0], base[k + 1][0] + base[k + 1][1] - base[k][0]))
+                k += 2
+            else:
+                out.append(base[k])
+                k += 1
+        return kind, out
+    out = []
+    for k, (o, n) in enumerate(base):
+        room = (base[k + 1][0] if k + 1 < len(base) else size) - o
+        if room <= 0:
+            out.append((o, n))
+            continue
+        choices = [m for m in range(1, room + 1) if m != n] or [n]
+        out.append((o, rng.choice(choices) if rng.random() < 0.8 else n))
+    return "other lengths", out
+
+
+def shares_start(calls):
+    """two calls of the session have a range with the same start and different lengths"""
+    seen = {}
+    for k, rs in enumerate(calls):
+        for o, n in rs:
+            for (k2, n2) in seen.get(o, []):
+                if k2 != k and n2 != n:
+                    return True
+            seen.setdefault(o, []).append((k, n))
+    return False
+
+
+def session_cases(ctx, k_sessions):
+    rng = ctx.rng
+    cases = []
+    for si in range(k_sessions):
+        file = make_file(rng, 56)
+        base = make_ranges(rng, rng.randrange(1, 5), len(file), True, rng.choice(["none", "none", "first"]))
+        calls, kinds = [base], ["base"]
+        for _ in range(rng.randrange(1, 4)):
+            kd, rs = vary_ranges(rng, [r for r in base if r[1] > 0] or base, len(file))
+            calls.append(rs)
+            kinds.append(kd)
+        order = list(range(len(calls)))
+        rng.shuffle(order)
+        calls, kinds = [calls[i] for i in order], [kinds[i] for i in order]
+        workers = rng.randrange(1, 5)
+        fmode = si % 3                                   # 0: no fault, 1: persistent, 2: transient (first matching request only)
+        faults = {}
+        if fmode:
+            cands = [r for rs in calls for r in rs if r[1] > 0]
+            if cands:
+                faults = CYCLE.assign([rng.choice(cands)])
+        for mode in ("queue", "exec"):
+            pols = [("main-first (a worker preempted between task_done and put)", None), ("random priorities", None),
+                    ("highest worker first (a lower offset answered after a higher one)", None)]
+            if faults:
+                pols[2] = (FAIL_FAST, make_fail_fast(faults))
+            for name, pol in pols:
+                if pol is None and name in ADVERSARIAL:
+                    pol = make_policy(ADVERSARIAL[name][0], ADVERSARIAL[name][1], 0.0, rng)
+                elif pol is None:
+                    prio = LABELS[:]
+                    rng.shuffle(prio)
+                    pol = make_policy(prio, rng.choice(["low", "high"]), rng.choice([0.0, 0.3, 1.0]), rng)
+                cases.append({"mode": mode, "file": file, "calls": calls, "kinds": kinds, "workers": workers, "faults": dict(faults),
+                              "once": fmode == 2, "policy": pol, "schedule": None, "origin": name})
+    return cases
+
+
+def run_session_case(c):
+    return run_session(c["mode"], c["file"], c["calls"], c["workers"], dict(c["faults"]), schedule=c["schedule"],
+                       policy=c["policy"], once=c["once"])
+
+
+def session_input(c, res):
+    return {"strategy": c["mode"], "session": True, "file_hex": c["file"].hex(), "calls": [[list(r) for r in rs] for rs in c["calls"]],
+            "workers": c["workers"], "failing": [list(r) + list(f) for r, f in c["faults"].items()],
+            "failing_legend": "[offset, size, status the server answers with (-1: no answer), error body kind]; transient: only the "
+                              "first request of that range fails", "transient": c["once"],
+            "schedule": res["decisions"], "origin": c["origin"]}
+
+
+def session_expected(c):
+    return ("each call returns the local read of its own ranges " + str([local_read(c["file"], rs).hex() for rs in c["calls"]]) +
+            " or raises the error of a request that failed during it; when a call has returned / raised, the threads it started "
+            "do nothing more for it")
+
+
+def shrink_session(c, res, kind):
+    """fewer calls while the same class of failure shows under the same kind of schedule"""
+    n = len(c["calls"])
+    subs = [[i] for i in range(n)] + [[i, j] for i in range(n) for j in range(i + 1, n)]
+    for sub in subs:
+        if len(sub) >= n or c["policy"] is None:
+            continue
+        c2 = dict(c, calls=[c["calls"][i] for i in sub], kinds=[c["kinds"][i] for i in sub])
+        r2 = run_session_case(c2)
+        b2 = session_oracle(c2["mode"], c2["file"], c2["calls"], c2["faults"], r2, c2["once"])
+        if b2 is not None and b2[0] == kind:
+            return c2, r2
+    return c, res
+
+
+def sessions(ctx):
+    """failing inputs among successive calls of a strategy on one source"""
+    found = []
+    done = list(_SESSIONS)
+    if not done:
+        for c in session_cases(ctx, ctx.n(14, 80)):
+            res = run_session_case(c)
+            register_session(ctx, c, res)
+            done.append((c, res))
+    for c, res in done:
+        bad = session_oracle(c["mode"], c["file"], c["calls"], c["faults"], res, c["once"])
+        if bad is not None and not any(f["kind"] == bad[0] for f in found):
+            c2, r2 = shrink_session(c, res, bad[0])
+            b2 = session_oracle(c2["mode"], c2["file"], c2["calls"], c2["faults"], r2, c2["once"]) or bad
+            found.append({"kind": bad[0], "input": session_input(c2, r2), "observed": b2[1], "trace": r2["events"][-120:],
+                          "expected": session_expected(c2)})
+            if len(found) >= 3:
+                break
+    return found
+
+
+def count_calls(ctx, res):
+    """what the threads of a call were doing when it returned / raised"""
+    for c in res.get("calls", []):
+        if c["late"] or c["late_requests"]:
+            ctx.count("at return: a thread still at work")
+        elif c["winding_down"]:
+            ctx.count("at return: worker(s) on their way out (last empty take), no work left")
+        else:
+            ctx.count("at return: every thread finished")
 
 
 def case_input(c, res):
@@ -942,10 +1300,19 @@ RULE = ("inputs: a fake file of random non-zero bytes, 1..6 disjoint byte ranges
         "adversarial policies (main first = worker preempted between task_done and put; main preempted between its puts / starts "
         "until no worker can move; main starts every worker before the next put; highest worker first = lower offset answered last; "
         "all seeks before any read; LIFO completions; one worker alone; two workers past the emptiness test with one item left) and "
-        "random operation-priority policies. end to end: CopcReader.query over the fake http source vs the local bytes on generated "
+        "random operation-priority policies; with a failing request also the fail-fast window (the failed request answered before every "
+        "other request in flight, main running whenever it can). AFTER THE CALL: at the moment a call returns / raises the "
+        "controller notes what the threads it started are doing and keeps driving them: any request / seek / published result / "
+        "task_done / job begun after that moment is a failing input (a worker on its way out - one last non-blocking take that finds "
+        "the queue empty - is not). SESSIONS: 2..4 successive calls of a strategy on one source whose ranges share starts with other "
+        "lengths / are merged neighbours / subsets / repeats / unrelated, no fault, a persistent one or a transient one (first "
+        "request only): each call is replayed in the model as a run of its own and must equal the local read of ITS ranges. end to end: CopcReader.query over the fake http source vs the local bytes on generated "
         "COPC files (chunks laid out deepest level first / in level order / randomly, with gaps; nodes without points: none / root / "
         "inner / some / all), queries: whole file, levels, boxes, and for empty nodes the query selecting exactly that node; workers "
-        "1, 2, 3, 8; both strategies; one failing data request of each kind; deadlock / hang detection by the controller. non-trivial "
+        "1, 2, 3, 8; both strategies; one failing data request of each kind; deadlock / hang detection by the controller; sessions of 2..4 queries on ONE reader (levels growing / shrinking, deepest level "
+        "first then more levels, boxes growing / shrinking, the same query twice, unrelated queries; persistent / transient fault on a "
+        "data request), every query compared with a fresh local reader, and - model reader_session gen_fetch_site - the compressed "
+        "bytes every query hands to the LAZ backend compared with the local read of that query's byte ranges. non-trivial "
         "= at least two threads besides main took steps, or a request failed; distinct by (strategy, ranges, workers, failing set, "
         "executed schedule)")
 
@@ -967,6 +1334,55 @@ def register(ctx, c, res):
     ctx.count(f"empty ranges:{sum(1 for r in c['ranges'] if r[1] == 0)}")
     ctx.count("schedule:" + c["origin"])
     ctx.count("outcome:" + res["outcome"][0] + ("" if res["problem"] is None else "+" + res["problem"][0]))
+    count_calls(ctx, res)
+
+
+_SESSIONS = []       # (case, impl result) of every session run by correspond(), re-judged by search()
+
+
+def session_correspondence(ctx, shape):
+    """successive calls on one source: the operations of each call (main's between the previous return and this one, those of the
+    threads it started wherever they fall) are replayed in the model as a run of their own - nothing of an earlier call shows"""
+    del _SESSIONS[:]
+    dis, lines, meta = [], [], []
+    for c in session_cases(ctx, ctx.n(14, 80)):
+        res = run_session_case(c)
+        _SESSIONS.append((c, res))
+        register_session(ctx, c, res)
+        if res["problem"] is not None or res["outcome"][0] != "session" or len(res["calls"]) != len(c["calls"]):
+            continue                                        # judged by the oracle
+        for k, (ranges, out, call) in enumerate(zip(c["calls"], res["outcome"][1], res["calls"])):
+            if c["once"]:
+                faults = {tuple(r): c["faults"][tuple(r)] for r in call["failed"] if tuple(r) in c["faults"]}
+            else:
+                faults = c["faults"]
+            lines.append(model_line(c["mode"], shape, c["file"], ranges, c["workers"], faults, call["events"]))
+            meta.append((c, res, k, out, call))
+    outs = common.run_model(lines, name="c16")
+    for (c, res, k, out, call), line in zip(meta, outs):
+        ctx.traces += 1
+        m = canon_model(c["mode"], line, sum(n for _, n in c["calls"][k]))
+        i = canon_impl_call(c["mode"], out, call)
+        if m != i and len(dis) < 5:
+            dis.append({"kind": f"{c['mode']}-strategy, successive calls on one source: " +
+                                ("trace of a call not accepted by the model" if m[0].startswith("rejected") else "outcome of a call differs from the model"),
+                        "input": dict(session_input(c, res), call=k + 1), "model": m, "impl": i, "trace": call["events"]})
+    return dis
+
+
+def register_session(ctx, c, res):
+    canon = ("session", c["mode"], tuple(tuple(rs) for rs in c["calls"]), c["workers"], tuple(c["faults"]), c["once"],
+             tuple(res["decisions"]))
+    ctx.case(canon, nontrivial=len(c["calls"]) >= 2)
+    ctx.count("session:" + c["mode"])
+    ctx.count(f"session:calls:{len(c['calls'])}")
+    ctx.count("session:faults:" + ("none" if not c["faults"] else ("transient" if c["once"] else "persistent")))
+    ctx.count("session:schedule:" + c["origin"])
+    for kd in c["kinds"]:
+        ctx.count("session:call ranges:" + kd)
+    if shares_start(c["calls"]):
+        ctx.count("session:two calls share a range start with different lengths")
+    count_calls(ctx, res)
 
 
 def correspond(ctx):
@@ -982,6 +1398,8 @@ def correspond(ctx):
         _RESULTS.append((c, res))
         register(ctx, c, res)
         lines.append(model_line(c["mode"], shape, c["file"], c["ranges"], c["workers"], c["faults"], res["events"]))
+    dis += session_correspondence(ctx, shape)
+    dis += reader_correspondence(ctx)
     outs = common.run_model(lines, name="c16")
     seen = set()
     for (c, res), line in zip(_RESULTS, outs):
@@ -1023,8 +1441,12 @@ def search(ctx, seeds):
                         "trace": res2["events"], "expected": expected_text(c2)})
         if len(failing) >= 5:
             break
+    if len(failing) < 5:
+        failing += sessions(ctx)
     if not failing:
         failing += e2e(ctx)
+    if not failing:
+        failing += e2e_sessions(ctx)
     if not failing:
         probe_short_success_body(ctx)
     return failing
@@ -1083,6 +1505,18 @@ def replay(ctx, data):
         return 0
     if inp.get("strategy") == "e2e":
         return e2e_replay(inp)
+    if inp.get("session"):
+        c = {"mode": inp["strategy"], "file": bytes.fromhex(inp["file_hex"]), "calls": [[tuple(r) for r in rs] for rs in inp["calls"]],
+             "workers": inp["workers"], "faults": {tuple(r[:2]): (r[2], r[3]) for r in inp["failing"]}, "once": bool(inp.get("transient")),
+             "schedule": list(inp["schedule"]), "policy": None}
+        res = run_session_case(c)
+        bad = session_oracle(c["mode"], c["file"], c["calls"], c["faults"], res, c["once"])
+        print("trace:", " ".join(res["events"]))
+        if bad is None:
+            print("not reproduced: outcome", short(res["outcome"]))
+            return 0
+        print("REPRODUCED:", bad[0], "--", bad[1])
+        return 1
     c = {"mode": inp["strategy"], "file": bytes.fromhex(inp["file_hex"]), "ranges": [tuple(r) for r in inp["ranges"]],
          "workers": inp["workers"], "failing": tuple(tuple(r[:2]) for r in inp["failing"]),
          "faults": {tuple(r[:2]): ((r[2], r[3]) if len(r) >= 4 else (500, "empty")) for r in inp["failing"]},
@@ -1101,6 +1535,8 @@ def replay(ctx, data):
 class DropEmptyEntries:
     """LAZ backend proxy: a chunk-table entry (0 points, 0 bytes) - an empty COPC node - decodes to nothing"""
 
+    LOG = None          # a list: the compressed bytes every query hands to the backend (= what _fetch_all_chunks returned)
+
     def __init__(self, real):
         self._real = real
 
@@ -1108,6 +1544,8 @@ class DropEmptyEntries:
         return getattr(self._real, name)
 
     def decompress_points_with_chunk_table(self, compressed, record_data, out, chunk_table, selection=None):
+        if DropEmptyEntries.LOG is not None:
+            DropEmptyEntries.LOG.append(bytes(compressed))
         kept = [(int(p), int(b)) for p, b in chunk_table if not (int(p) == 0 and int(b) == 0)]
         return self._real.decompress_points_with_chunk_table(compressed, record_data, out, kept, selection)
 
@@ -1262,6 +1700,9 @@ def e2e_oracle(local, res, failed):
         return "e2e: query over http blocks (" + res["problem"][0] + ")", str(res["problem"][1]) + f"; the local query: {short(local)[0]}"
     if res["leaked"] or not all(res["exited"]):
         return "e2e: thread still alive after the query", f"{res['leaked']} exited={res['exited']}"
+    late = late_work(res)
+    if late is not None:
+        return "e2e: " + late[0].replace("the call", "the query"), late[1]
     out = res["outcome"]
     if not failed:
         if local[0] == "error":
@@ -1318,9 +1759,12 @@ def e2e(ctx):
                         pol = make_policy(prio, rng.choice(["low", "high"]), rng.choice([0.0, 0.5, 1.0]), rng)
                     else:
                         pol = make_policy(ADVERSARIAL[pname][0], ADVERSARIAL[pname][1], 0.0, rng)
+                    if with_failure and runs % 2:
+                        pol = make_fail_fast(faults, by_start=True)
                     local, res, failed = e2e_run(raw, q, strategy, workers, faults, policy=pol)
                     starts = sorted({r[0] for r in res["requests"] if r[0] in offs})
                     runs += 1
+                    count_calls(ctx, res)
                     ctx.case(("e2e", hash(raw), str(q), strategy, workers, tuple(faults.items()), tuple(res["decisions"])),
                              nontrivial=len(set(res["decisions"])) >= 3)
                     ctx.count("e2e:" + strategy + (":failing" if failed else ""))
@@ -1345,7 +1789,257 @@ def e2e(ctx):
     return found
 
 
+# ---- successive queries on ONE reader
+_LOCAL = {}
+
+
+def e2e_local_cached(raw, q):
+    key = (hash(raw), len(raw), str(q))
+    if key not in _LOCAL:
+        if len(_LOCAL) > 400:
+            _LOCAL.clear()
+        _LOCAL[key] = e2e_local(raw, q)
+    return _LOCAL[key]
+
+
+def e2e_session_run(raw, queries, strategy, workers, faults, once=False, schedule=None, policy=None):
+    """one CopcReader over the fake http source answers the queries one after the other; the reference for each query is a
+    FRESH reader on the local bytes.  faults: {start offset of a request: (status, body kind)}; once: only the first such
+    request fails"""
+    e2e_backend()
+    locals_ = [e2e_local_cached(raw, q) for q in queries]
+    world = World(raw, {int(k): tuple(v) for k, v in dict(faults).items()}, by_start=True, once=once)
+
+    def fn(p):
+        src = p.stream_cls("http://fake/e2e.copc.laz")
+        rd = p.copc.CopcReader(src, http_num_threads=workers, _http_strategy=strategy)
+        outs = []
+        for q in queries:
+            if DropEmptyEntries.LOG is not None:
+                DropEmptyEntries.LOG.append(None)          # a new query begins
+            outs.append(p.observed(lambda q=q: e2e_query(p.copc, rd, q)))
+        return outs
+    mode = "queue" if strategy == "queue" else "exec"
+    res = controlled_call(mode, world, fn, schedule, policy, seek_yields=(mode == "exec"), session=True)
+    return locals_, res
+
+
+class LogBytesIO(io.BytesIO):
+    """a local source that notes the byte ranges _fetch_all_chunks reads (seek ; readinto)"""
+
+    def __init__(self, raw):
+        super().__init__(raw)
+        self.log = []
+
+    def readinto(self, b):
+        self.log.append((self.tell(), len(b)))
+        return super().readinto(b)
+
+
+def reader_correspondence(ctx):
+    """the reader-level model (reader_session gen_fetch_site: what the reader keeps between queries) against CopcReader: for
+    sessions of queries on one reader over the fake http source, the compressed bytes each query hands to the LAZ backend must be
+    what the model yields for the byte ranges of that query (taken from a fresh local reader), i.e. the local read of those ranges"""
+    try:
+        from harness import fake_lazrs  # noqa
+    except Exception:
+        return []
+    copc = e2e_backend()
+    rng = ctx.rng
+    dis, lines, meta = [], [], []
+    for fi in range(ctx.n(5, 24)):
+        layout = LAYOUTS_S[fi % len(LAYOUTS_S)]
+        raw, nodes = build_copc(rng, layout, EMPTIES_S[fi % len(EMPTIES_S)])
+        copc = e2e_backend()                       # (build_copc re-installs the bare stand-in)
+        for si, (name, queries) in enumerate(e2e_session_queries(rng, nodes)):
+            ranges, local_bytes = [], []
+            try:
+                for q in queries:
+                    src = LogBytesIO(raw)
+                    rd = copc.CopcReader(src)
+                    del src.log[:]
+                    DropEmptyEntries.LOG = got = []
+                    e2e_query(copc, rd, q)
+                    ranges.append(list(src.log))
+                    local_bytes.append(got[-1] if got else b"")
+            except Exception:  # noqa   (a query the local file cannot answer: judged by the oracle, nothing to compare here)
+                continue
+            finally:
+                DropEmptyEntries.LOG = None
+            strategy = ("queue", "executor")[(fi + si) % 2]
+            prio = LABELS[:]
+            rng.shuffle(prio)
+            DropEmptyEntries.LOG = got = []
+            try:
+                _l, res = e2e_session_run(raw, queries, strategy, rng.choice([1, 2, 3]), {},
+                                          policy=make_policy(prio, rng.choice(["low", "high"]), rng.choice([0.0, 0.5]), rng))
+            finally:
+                DropEmptyEntries.LOG = None
+            impl, cur = [], None
+            for x in got:
+                if x is None:
+                    cur = []
+                    impl.append(cur)
+                elif cur is not None:
+                    cur.append(x)
+            impl = [(c[-1] if c else b"") for c in impl]
+            lines.append("session gen " + common.hexb(raw) + " " + ";".join(rtok(rs) for rs in ranges))
+            meta.append((raw, queries, name, layout, strategy, ranges, local_bytes, impl, res))
+            ctx.count("reader session vs model:" + strategy)
+    outs = common.run_model(lines, name="c16") if lines else []
+    for (raw, queries, name, layout, strategy, ranges, local_bytes, impl, res), line in zip(meta, outs):
+        ctx.traces += 1
+        head, kv = parse_kv(line)
+        model = kv.get("outs", "").split(";") if head == "ok" else ["rejected: " + line[:100]]
+        got = ["returned:x" + b.hex() for b in impl]
+        want_local = ["returned:x" + b.hex() for b in local_bytes]
+        if (model != got or model != want_local) and len(dis) < 3:
+            k = next((i for i in range(min(len(model), len(got))) if model[i] != got[i]), min(len(model), len(got)))
+            dis.append({"kind": "successive queries on one reader: compressed bytes of a query differ from the reader model",
+                        "input": {"strategy": "e2e", "http_strategy": strategy, "file_hex": raw.hex(), "queries": queries, "session": name,
+                                  "layout": layout, "byte_ranges_per_query": [[list(r) for r in rs] for rs in ranges],
+                                  "workers": None, "faults": {}, "schedule": res["decisions"]},
+                        "model": [m[:80] for m in model], "impl": [g[:80] for g in got], "first_differing_query": k + 1,
+                        "local_equals_model": model == want_local, "local": [w[:80] + f"..({len(w)})" for w in want_local]})
+    return dis
+
+
+def e2e_session_oracle(queries, locals_, res):
+    kind0 = "e2e, successive queries on one reader: "
+    if res["problem"] is not None:
+        return kind0 + "query over http blocks (" + res["problem"][0] + ")", str(res["problem"][1])
+    if res["leaked"] or not all(res["exited"]):
+        return kind0 + "thread still alive after the queries", f"{res['leaked']} exited={res['exited']}"
+    late = late_work(res)
+    if late is not None:
+        return kind0 + late[0].replace("the call", "the query"), late[1]
+    if res["outcome"][0] != "session" or len(res["outcome"][1]) != len(queries) or len(res["calls"]) != len(queries):
+        return kind0 + "the session did not run to its end", str(short(res["outcome"]))[:300]
+    for k, (q, local, out, c) in enumerate(zip(queries, locals_, res["outcome"][1], res["calls"])):
+        failed = [tuple(r) for r in c["failed"]]
+        nth = f"query #{k + 1} of {len(queries)} {q} (after {queries[:k]})"
+        if not failed:
+            if local[0] == "error":
+                if out[0] != "error" or not out[1].startswith(local[1]):
+                    return kind0 + "query over http differs from the local query (which raises)", f"{nth}: {short(out)} vs local {local}"
+                continue
+            if out[0] != "returned":
+                return (kind0 + "query over http raises although no request failed",
+                        f"{nth}: {short(out)}; the local query returns {len(local[1])} bytes of records")
+            if out[1] != local[1]:
+                a, b = out[1], local[1]
+                return (kind0 + "query over http returns other points than the local file",
+                        f"{nth}: {len(a)} bytes vs {len(b)} bytes, first difference at "
+                        f"{next((i for i in range(min(len(a), len(b))) if a[i] != b[i]), min(len(a), len(b)))}; its range requests "
+                        f"{c['requests']}")
+        else:
+            if out[0] == "returned":
+                return kind0 + "failed request swallowed by the query", f"{nth}: failed {failed}, returned {len(out[1])} bytes of records"
+            if out[0] != "raised" or tuple(out[1]) not in failed:
+                return kind0 + "failed request surfaced as something else", f"{nth}: {short(out)}"
+    return None
+
+
+def e2e_session_queries(rng, nodes):
+    """[(name, [queries])]: the selections grow / shrink from one query to the next (the byte ranges of contiguous chunks are
+    merged per query, so the same chunk starts ranges of different lengths), repeat, or are unrelated"""
+    def lv(level):
+        return {"level": level, "bounds": None}
+    whole = lv(None)
+    lo = [rng.choice([0.0, 50.0]) for _ in range(3)]
+    octant = [lo, [v + 50.0 for v in lo]]
+    slab = [[lo[0], 0.0, 0.0], [lo[0] + 50.0, 100.0, 100.0]]
+    cube = [[0.0, 0.0, 0.0], [100.0, 100.0, 100.0]]
+    blevel = rng.choice([None, None, [0, 2], [1, 3]])
+
+    def bx(b):
+        return {"level": blevel, "bounds": b}
+    pool = [whole, lv(0), lv(1), lv(2), lv([0, 2]), lv([1, 3]), bx(octant), bx(slab), bx(cube)]
+    q = rng.choice(pool)
+    out = [("levels growing", [lv(0), lv([0, 2]), whole]),
+           ("levels shrinking", [whole, lv([0, 2]), lv(0)]),
+           ("deepest level first, then more levels", [lv(2), lv([1, 3]), whole, lv(1)]),
+           ("box growing", [bx(octant), bx(slab), bx(cube)]),
+           ("box shrinking", [bx(cube), bx(slab), bx(octant)]),
+           ("same query twice", [q, q]),
+           ("unrelated", [rng.choice(pool) for _ in range(3)])]
+    return out
+
+
+def e2e_sessions(ctx):
+    """sequences of queries on ONE CopcReader over the fake HTTP source: each must equal the same query on the local bytes"""
+    try:
+        from harness import fake_lazrs  # noqa
+    except Exception:
+        return []
+    rng = ctx.rng
+    found = []
+    runs = 0
+    t0 = time.time()
+    for fi in range(ctx.n(14, 50)):
+        layout, empties = LAYOUTS_S[fi % len(LAYOUTS_S)], EMPTIES_S[fi % len(EMPTIES_S)]
+        raw, nodes = build_copc(rng, layout, empties)
+        offs = {nd["offset"] for nd in nodes if nd["n"]}
+        for si, (name, queries) in enumerate(e2e_session_queries(rng, nodes)):
+            for strategy in (("queue", "executor") if ctx.thorough() else (("queue", "executor")[(fi + si) % 2],)):
+                starts = []
+                for fmode in (0, 1 + (fi + si) % 2):
+                    if fmode and (not starts or (si + fi) % 3 == 0):
+                        continue
+                    faults = {rng.choice(starts): CYCLE.next()} if fmode else {}
+                    workers = rng.choice([1, 1, 2, 3, 8])
+                    if fmode and runs % 2:
+                        pol = make_fail_fast(faults, by_start=True)
+                    else:
+                        prio = LABELS[:]
+                        rng.shuffle(prio)
+                        pol = make_policy(prio, rng.choice(["low", "high"]), rng.choice([0.0, 0.5, 1.0]), rng)
+                    locals_, res = e2e_session_run(raw, queries, strategy, workers, faults, once=(fmode == 2), policy=pol)
+                    per_call = [[tuple(r) for r in c["requests"] if r[0] in offs] for c in res["calls"]]
+                    starts = sorted({r[0] for rs in per_call for r in rs})
+                    runs += 1
+                    ctx.case(("e2e-session", hash(raw), str(queries), strategy, workers, tuple(faults.items()), fmode,
+                              tuple(res["decisions"])), nontrivial=len(queries) >= 2)
+                    ctx.count("e2e session:" + strategy + ("" if not fmode else (":persistent fault" if fmode == 1 else ":transient fault")))
+                    ctx.count("e2e session:" + name)
+                    ctx.count("e2e session:layout:" + layout)
+                    if shares_start(per_call):
+                        ctx.count("e2e session:two queries share a range start with different lengths")
+                    count_calls(ctx, res)
+                    bad = e2e_session_oracle(queries, locals_, res)
+                    if bad is not None and not any(f["kind"] == bad[0] for f in found):
+                        found.append({"kind": bad[0], "observed": bad[1],
+                                      "input": {"strategy": "e2e", "http_strategy": strategy, "file_hex": raw.hex(), "queries": queries,
+                                                "session": name, "layout": layout, "empty_nodes": empties, "workers": workers,
+                                                "faults": {str(k): list(v) for k, v in faults.items()}, "transient": fmode == 2,
+                                                "faults_legend": "{start offset of the request: [status (-1: no answer), error body kind]}; "
+                                                                 "transient: only the first such request fails",
+                                                "schedule": res["decisions"]},
+                                      "trace": res["events"][-80:],
+                                      "expected": "each query returns the same point records as the same query on a fresh reader of the "
+                                                  "local bytes, or raises the error of a request that failed during it; after a query has "
+                                                  "returned / raised the threads it started do nothing more for it"})
+    ctx.extra["end_to_end_sessions"] = runs
+    ctx.extra["end_to_end_sessions_seconds"] = round(time.time() - t0, 1)
+    return found
+
+
+LAYOUTS_S = ["level order", "deepest level first", "random", "level order", "deepest level first, gaps"]
+EMPTIES_S = ["none", "none", "some", "inner", "none", "root"]
+
+
 def e2e_replay(inp):
+    if "queries" in inp:
+        raw = bytes.fromhex(inp["file_hex"])
+        locals_, res = e2e_session_run(raw, inp["queries"], inp["http_strategy"], inp["workers"], inp.get("faults") or {},
+                                       once=bool(inp.get("transient")), schedule=list(inp["schedule"]))
+        bad = e2e_session_oracle(inp["queries"], locals_, res)
+        print("trace:", " ".join(res["events"][-60:]))
+        if bad is None:
+            print("not reproduced")
+            return 0
+        print("REPRODUCED:", bad[0], "--", bad[1])
+        return 1
     raw = bytes.fromhex(inp["file_hex"])
     faults = inp.get("faults")
     if faults is None:
